@@ -12,7 +12,7 @@ COMMON_NOTE = (
     "extraction via ExtrOcamlBasic+ExtrOcamlString only with Z/Q kept as extracted inductives; tools/translate*.py "
     "(regenerate coq/gen/*.v from /repo on every run, fail closed: data tables, regexes, cache keys, write effects, and the bodies of the "
     "calendar helpers, of the TimePoint arithmetic/constructor/truncated-addition methods and of the Duration and TimeRecurrence methods, which are proved equal to the model); the rest of the hand-written "
-    "Gallina model (parsers, dumper, strftime, CLI, text forms) is tied to the code by the correspondence run (same cases on the extracted "
+    "Gallina model (parts of the parser and of the dumper - see C07/C08 -, duration and recurrence text, CLI) is tied to the code by the correspondence run (same cases on the extracted "
     "model and on the real package), so agreement outside the explored cases is assumed there; CPython int/float/re/str-formatting are "
     "modelled, not verified. ")
 
@@ -67,7 +67,7 @@ CLAIMED = {
               "concatenated expression text (dump_as_parsed format) for every triple the tables offer; parse_text = the constructor applied to the "
               "numbers the digit groups denote, zone resolved by the configuration; explicit end-to-end instances; basic-only parsers search no "
               "extended form; accepted texts never mix basic and extended parts."),
-        note=("Props/C07Ext.v closes the gap left by C07_decode_partial: C07_decode_full gives the parse result as an explicit point (year from the digits and "
+        note=("Props/C07Code.v: the bodies of TimePointParser.process_time_zone_info, get_date_info, get_time_info, get_time_zone_info and of _create_timepoint_from_info from its first loop on are translated from /repo on every run (gen/GenCode8.v; regex.match as the model's matcher on the regenerated token lists) and proved equal to the model; the rest of _create_timepoint_from_info, get_info and parse are translated and checked by a closed example only. Props/C07Ext.v closes the gap left by C07_decode_partial: C07_decode_full gives the parse result as an explicit point (year from the digits and "
               "sign, representation per form, fraction on the last unit, written or configured zone) exactly when that point is Spec-valid and BadInput "
               "otherwise; a date alone; dump_as_parsed reproduces the text (decimals canonicalised; the three necessary side conditions have refuted "
               "witnesses); truncated date/time forms incl. a truncated time without zone. Sign-prefixed forms with 0 expanded digits (they raise ValueError "
@@ -85,7 +85,7 @@ CLAIMED = {
               "seconds: the dumped text parses back to a point that compares Eq and carries the format's zone. Counterexamples for what is "
               "outside the hypotheses (1/3 s, year 10000 without expanded digits, mixed basic/extended formats, '+hh' on a half-hour zone) "
               "are evaluated in the file."),
-        note=("Custom-format theorems carry _partial: fractional seconds, hh:mm / hh points, reduced or decimal expressions and formats without a "
+        note=("Props/C08Code.v: the dumper side is translated from /repo on every run (gen/GenCode9.v): the property getters, the decimal strings, _get_dump_format, strftime, _dump_expression_with_properties (every branch incl. custom zones and the year bounds) and _get_expression_and_properties are proved equal to the model; the last composition of dump against do_dump is open. Custom-format theorems carry _partial: fractional seconds, hh:mm / hh points, reduced or decimal expressions and formats without a "
               "zone designator are covered by the correspondence only; ned restricted to the values with generated tables (0, 2, 3)."),
         technique="Coq proof (explicit string form + C07 render/match machinery + constructor characterisation) + correspondence with exact string comparison",
         design="7 C08"),
@@ -231,7 +231,7 @@ CLAIMED = {
               "civil date-time defined from the Spec instant only; strptime of that text is the constructor call with absent fields defaulted "
               "(year 0 / month 1 / day 1 / 00:00:00 / the configuration's zone), and for full formats it returns a point comparing Eq with "
               "the original (whole-second points). Correspondence: random directive sequences, full and partial formats, unsupported letters."),
-        note=("strptime theorems exclude %s (parsed through float()) and are stated for the canonical text; a stray '%' in literal text is outside "
+        note=("The bodies of TimePointDumper.strftime and TimePoint.strftime are translated from /repo on every run and proved against the model (Props/C08Code.v, C08_code_strftime). strptime theorems exclude %s (parsed through float()) and are stated for the canonical text; a stray '%' in literal text is outside "
               "the model; %s of an instant before the epoch with a fractional second was truncated toward zero by the package (defect F14, repaired by fix: ecba00f; the strftime theorem now covers %s everywhere)."),
         technique="Coq proof (strftime = Spec POSIX rendering of the civil date-time; reflection over the generated directive table) + correspondence",
         design="7 C17"),
